@@ -8428,9 +8428,19 @@ func (e *ExpressionEmitter) emitImageLoadRZSW(
 	}
 	var phiEntries []phiEntry
 
-	// Current block ID for tracking Phi source blocks
-	// We record the block ID where we branch to merge (false path)
-	entryBlockID := e.currentBlock.LabelID
+	// The first bounds check (level, sample or coordinates, whichever comes first) is the
+	// selection header: it carries the OpSelectionMerge for the shared merge block.
+	mergeDeclared := false
+	declareMerge := func() {
+		if mergeDeclared {
+			return
+		}
+		mergeDeclared = true
+		ib := e.newIB()
+		ib.AddWord(mergeBlockID)
+		ib.AddWord(0) // SelectionControl::None
+		e.backend.builder.funcAppend(ib.Build(OpSelectionMerge))
+	}
 
 	// Check level bounds
 	if levelID != nil {
@@ -8454,10 +8464,7 @@ func (e *ExpressionEmitter) emitImageLoadRZSW(
 		// SelectionMerge + BranchConditional
 		trueBlockID := e.backend.builder.AllocID()
 
-		ib = e.newIB()
-		ib.AddWord(mergeBlockID)
-		ib.AddWord(0) // SelectionControl::None
-		e.backend.builder.funcAppend(ib.Build(OpSelectionMerge))
+		declareMerge()
 
 		// False path goes to merge with null
 		phiEntries = append(phiEntries, phiEntry{nullID, e.currentBlock.LabelID})
@@ -8471,8 +8478,6 @@ func (e *ExpressionEmitter) emitImageLoadRZSW(
 		// Start true block
 		trueBlock := &Block{LabelID: trueBlockID}
 		e.setCurrentBlock(trueBlock)
-	} else {
-		// No level check needed, but we still record entry block for Phi
 	}
 
 	// Check sample bounds
@@ -8499,7 +8504,8 @@ func (e *ExpressionEmitter) emitImageLoadRZSW(
 
 		trueBlockID := e.backend.builder.AllocID()
 
-		// BranchConditional (no SelectionMerge for nested checks)
+		// BranchConditional (SelectionMerge only if this is the first check)
+		declareMerge()
 		e.consumeBlock(Instruction{
 			Opcode: OpBranchConditional,
 			Words:  []uint32{sampleCondID, trueBlockID, mergeBlockID},
@@ -8561,7 +8567,8 @@ func (e *ExpressionEmitter) emitImageLoadRZSW(
 
 		accessBlockID := e.backend.builder.AllocID()
 
-		// BranchConditional
+		// BranchConditional (SelectionMerge only if this is the first check)
+		declareMerge()
 		e.consumeBlock(Instruction{
 			Opcode: OpBranchConditional,
 			Words:  []uint32{coordCondID, accessBlockID, mergeBlockID},
@@ -8596,7 +8603,6 @@ func (e *ExpressionEmitter) emitImageLoadRZSW(
 	}
 	e.backend.builder.funcAppend(ib.Build(OpPhi))
 
-	_ = entryBlockID
 	return phiResultID, nil
 }
 
